@@ -6,6 +6,7 @@ import (
 	"fmt"
 	"io"
 	"strings"
+	"sync"
 	"time"
 
 	"github.com/jhump/grpctunnel"
@@ -52,6 +53,24 @@ func varintLen(n int) int {
 // MakeMsg builds message idx of RPC tag in direction dir (0 request, 1 response) whose
 // serialized size is sz. Every byte is a function of (tag, dir, idx, position).
 func MakeMsg(tag byte, dir, idx, sz int) *wrapperspb.BytesValue {
+	key := [4]int{int(tag), dir, idx, sz}
+	msgCacheMu.Lock()
+	defer msgCacheMu.Unlock()
+	if m, ok := msgCache[key]; ok {
+		// a fresh wrapper around the shared (never mutated) payload
+		return &wrapperspb.BytesValue{Value: m}
+	}
+	m := makeMsg(tag, dir, idx, sz)
+	msgCache[key] = m.Value
+	return m
+}
+
+var (
+	msgCacheMu sync.Mutex
+	msgCache   = map[[4]int][]byte{}
+)
+
+func makeMsg(tag byte, dir, idx, sz int) *wrapperspb.BytesValue {
 	n := payloadLen(sz)
 	b := make([]byte, n)
 	for j := range b {
@@ -204,7 +223,10 @@ func (ts *TestServer) unary(ctx context.Context, dec func(any) error) (any, erro
 		return nil, err
 	}
 	if resp == nil {
-		resp = MakeMsg(hs.Tag, 1, 0, 3)
+		m := MakeMsg(hs.Tag, 1, 0, 3)
+		ts.W.Log(Event{Actor: "handler:" + hs.ID, Op: "send-begin", Idx: 0, Detail: "m=" + MsgIdent(m)})
+		ts.W.Log(Event{Actor: "handler:" + hs.ID, Op: "send", Idx: 0, Detail: "m=" + MsgIdent(m)})
+		resp = m
 	}
 	return resp, nil
 }
@@ -234,6 +256,7 @@ func (ts *TestServer) run(hs *HandlerScript, h *hIO, method string) (ret error) 
 		case "recv", "recvall":
 			for {
 				m := &wrapperspb.BytesValue{}
+				w.Log(Event{Actor: actor, Op: "recv-begin", Idx: nRecv})
 				err := h.recv(m)
 				em, ec := errFields(err)
 				d := ""
@@ -297,7 +320,10 @@ func (ts *TestServer) run(hs *HandlerScript, h *hIO, method string) (ret error) 
 				return MakeStatus(op.Code, op.Msg, op.Details).Err()
 			}
 			if h.unary {
-				_ = h.send(MakeMsg(hs.Tag, 1, 0, op.Size))
+				m := MakeMsg(hs.Tag, 1, 0, op.Size)
+				w.Log(Event{Actor: actor, Op: "send-begin", Idx: 0, Detail: "m=" + MsgIdent(m)})
+				_ = h.send(m)
+				w.Log(Event{Actor: actor, Op: "send", Idx: 0, Detail: "m=" + MsgIdent(m)})
 			}
 			return nil
 		default:
@@ -438,6 +464,7 @@ func (w *World) RunCall(conn grpc.ClientConnInterface, spec *CallSpec) {
 			req := MakeMsg(spec.Tag, 0, 0, op.Size)
 			resp := &wrapperspb.BytesValue{}
 			w.Log(Event{Actor: actor, Op: "send-begin", Idx: 0, Detail: "m=" + MsgIdent(req)})
+			w.Log(Event{Actor: actor, Op: "recv-begin", Idx: 0})
 			err := conn.Invoke(ctx, full, req, resp, opts...)
 			em, ec := errFields(err)
 			d := ""
@@ -470,6 +497,7 @@ func (w *World) RunCall(conn grpc.ClientConnInterface, spec *CallSpec) {
 		case "recv", "recvall":
 			for {
 				m := &wrapperspb.BytesValue{}
+				w.Log(Event{Actor: actor, Op: "recv-begin", Idx: nRecv})
 				err := cs.RecvMsg(m)
 				em, ec := errFields(err)
 				d := ""
